@@ -80,6 +80,9 @@ def generate(tier, rng):
                                   op=dict(kind="refl", op=op, c=2)))
             for u in ["neg", "abs", "sign", "absm"]:
                 cases.append(dict(stream="exact", uni=uni, x=x, op=dict(kind="un", op=u)))
+            # the same after an in-place abs()/sign() of ANOTHER array of the same shape: nothing may leak from one call into the next
+            for u in ["abs", "sign", "absm"]:
+                cases.append(dict(stream="exact", uni=uni, x=x, op=dict(kind="un", op=u, after_inplace=["abs", "sign"][k % 2])))
     return cases
 
 
@@ -107,6 +110,9 @@ def run_impl(case):
         f = lambda: PYOP[op["op"]](y, x)
     else:
         u = op["op"]
+        if op.get("after_inplace"):
+            z = build_array(uni, dict(case["x"], values=[-(Fraction(v)) - 7 for v in case["x"]["values"]]))
+            getattr(z, op["after_inplace"])(inplace=True)
         f = {"neg": lambda: -x, "abs": lambda: abs(x), "sign": lambda: x.sign(), "absm": lambda: x.abs()}[u]
     r = observe(f)
     if r["kind"] == "ok":
